@@ -15,6 +15,16 @@ Proof. vm_compute. reflexivity. Qed.
 Theorem fmt_bubbles_safe : forallb bubble_safe_b bubbles = true.
 Proof. vm_compute. reflexivity. Qed.
 
+(* every stage that inserts or drops line breaks sees the comments (its
+   pass-through category does not contain COMMENT) *)
+Theorem fmt_line_break_stages_see_comments : forallb line_break_stage_sees_comments stages = true.
+Proof. vm_compute. reflexivity. Qed.
+
+Example fmt_line_break_stages_nonvacuous :
+  (8 <=? length (filter (fun s => existsb touches_line_breaks (g_rules s)) stages))%nat = true /\
+  existsb (fun s => negb (N.eqb (N.land (g_pt s) C_COMMENT) 0)) stages = true.
+Proof. vm_compute. split; reflexivity. Qed.
+
 (* every Processor stage of the pipeline, with ANY conditions that entail the
    extracted conjuncts, preserves the significant tokens of ANY stream *)
 Theorem fmt_stage_preserves_significant : forall s rs ts fuel out,
